@@ -220,7 +220,7 @@ def obs_var(v, r):
             return "?" if x is None else str(x)
         o = (f"{TYPE_NO[v[0]]} {1 if to_bool(v) else 0} {q(to_int_generic(v, True, 32))} {q(to_int_generic(v, False, 32))} "
              f"{q(to_int_generic(v, True, 64))} {q(to_int_generic(v, False, 64))} {'z' if to_double(v) == 0.0 else 'n'} "
-             f"{hexs(to_string(v))} {r}")
+             f"{hexs(to_string(v))} {r} ?")       # last token: the value with reference counts (model vs implementation only)
         if len(_obs_cache) < 200000:
             _obs_cache[r] = o
     return o
